@@ -76,6 +76,7 @@ fn user_rows(d: usize, p: PosPattern) -> Vec<Row> {
         with_pos(Row::new(&format!("{}東", a), 1, 1, -500, P_NOUN).splits("C", &format!("{},{},エー{}/東,名詞,普通名詞,一般,*,*,*,ヒガシ", a, pos.join(","), d), "U0/0")), // U3
         with_pos(Row::new("共", 1, 1, 5000 + d as i32, P_NOUN).reading(&format!("キョウ{}", d))),        // U4: homograph in every dictionary
         with_pos(Row::new(&format!("{}京", a), 1, 1, -500, P_NOUN).splits("C", "*", "U0/1")),               // U5: B units only
+        with_pos(Row::new(&format!("{}単", a), 1, 1, -500, P_NOUN).splits("C", "U0", &format!("{},{},エー{}", a, pos.join(","), d)).structure("U0")), // U6: lists of one reference
     ]
 }
 
@@ -195,9 +196,17 @@ fn check_layers(env: &Env, l: &Layers, o: &mut Outcome) {
                         let exp_a: Vec<WordId> = match i {
                             2 => vec![u(0), u(1)],
                             3 => vec![u(0), WordId::new(0, 0)],
+                            6 => vec![u(0)],
                             _ => vec![],
                         };
                         let exp_b = if i == 5 { vec![u(0), WordId::new(0, 1)] } else { exp_a.clone() };
+                        let exp_ws: Vec<WordId> = match i {
+                            2 | 6 => exp_a.clone(),
+                            _ => vec![],
+                        };
+                        if fields[6] != format!("{:?}", exp_ws) {
+                            f.push(Failure::new("split-reference-differs", format!("{}: word ({}, {}) {:?} has word structure {}, declared {:?}", ctx, d, i, row.surface, fields[6], exp_ws)));
+                        }
                         if fields[4] != format!("{:?}", exp_a) || fields[5] != format!("{:?}", exp_b) {
                             f.push(Failure::new("split-reference-differs", format!("{}: word ({}, {}) {:?} has A/B units {} / {}, declared {:?}", ctx, d, i, row.surface, fields[4], fields[5], exp_a)));
                         }
